@@ -76,9 +76,9 @@ func budget(p *engine.Property, tier string) time.Duration {
 	}
 	if b == 0 {
 		if tier == "thorough" {
-			b = 20 * time.Minute
+			b = 45 * time.Minute
 		} else {
-			b = 150 * time.Second
+			b = 300 * time.Second
 		}
 	}
 	return b
